@@ -46,22 +46,60 @@ func (r *runner) producerOf(path string) *RefTask {
 
 // expectedTags of the record of a file: tags set on it by a tagging component + the tags of
 // everything it was computed from (MapToTags tags the IP in place, tasks merge their inputs' tags).
+//
+// direct=false leaves out the tags that a tagger puts on the path itself: the view of a SIBLING of
+// the tagger (a consumer fed by the same out-port), which is not downstream of the tagging step.
 func (r *runner) expectedTags(path string, memo map[string]map[string]string) map[string]string {
-	if m, ok := memo[path]; ok {
+	return r.expectedTagsD(path, memo, true)
+}
+
+// siblingOfTagger: process proc receives path from an out-port that also feeds a tagger.
+func (r *runner) siblingOfTagger(proc, path string) bool {
+	for _, e := range r.spec.Edges {
+		if e.To != proc || e.Param {
+			continue
+		}
+		mine := false
+		for _, p := range r.ref.Emit[e.From+"."+e.FromPort] {
+			if p == path {
+				mine = true
+			}
+		}
+		if !mine {
+			continue
+		}
+		for _, e2 := range r.spec.Edges {
+			if to := r.spec.proc(e2.To); to != nil && to.Kind == "tagger" && e2.To != proc && e2.From == e.From && e2.FromPort == e.FromPort {
+				return true
+			}
+		}
+	}
+	return false
+}
+
+func (r *runner) expectedTagsD(path string, memo map[string]map[string]string, direct bool) map[string]string {
+	mk := path
+	if !direct {
+		mk = "\x00nodirect:" + path
+	}
+	if m, ok := memo[mk]; ok {
 		return m
 	}
 	m := map[string]string{}
-	memo[path] = m
+	memo[mk] = m
 	if t := r.producerOf(path); t != nil {
 		if ps := r.spec.proc(t.Proc); ps != nil && ps.Kind == "joiner" {
 			// members' tags are not merged into a joined record (judged separately)
 		} else {
 			for _, in := range t.Ins {
-				for k, v := range r.expectedTags(in, memo) {
+				for k, v := range r.expectedTagsD(in, memo, !r.siblingOfTagger(t.Proc, in)) {
 					m[k] = v
 				}
 			}
 		}
+	}
+	if !direct {
+		return m
 	}
 	// a tagger that consumes this path tags it
 	for _, e := range r.spec.Edges {
@@ -92,6 +130,12 @@ func sameMap(a, b map[string]string) bool {
 
 // compareRecord: rec is the audit record found for path.
 func (r *runner) compareRecord(path string, rec *auditRec, where string, o *Obs, memo map[string]map[string]string, add func(class, detail string)) {
+	r.compareRecordS(path, rec, where, o, memo, add, false)
+}
+
+// sibling: the record was taken by a consumer that is a sibling of a tagger of this path (the
+// tagger's own tag on the path is then neither expected nor compared with the record on disk).
+func (r *runner) compareRecordS(path string, rec *auditRec, where string, o *Obs, memo map[string]map[string]string, add func(class, detail string), sibling bool) {
 	if rec == nil {
 		add("audit-missing-upstream", where+": no record")
 		return
@@ -128,7 +172,7 @@ func (r *runner) compareRecord(path string, rec *auditRec, where string, o *Obs,
 	// "tags attached upstream are present on every downstream record": the expected tags must be
 	// there (extra tags are not judged here; a nested record that differs from the file's own
 	// record on disk is caught by the differential comparison below)
-	for k, v := range r.expectedTags(path, memo) {
+	for k, v := range r.expectedTagsD(path, memo, !sibling) {
 		if rec.Tags[k] != v {
 			add("audit-tags", fmt.Sprintf("%s: tag %s=%s attached upstream is missing (Tags %v)", where, k, v, rec.Tags))
 		}
@@ -144,7 +188,7 @@ func (r *runner) compareRecord(path string, rec *auditRec, where string, o *Obs,
 					dOut[k] = normPath(v)
 				}
 				disk.OutFiles = dOut
-				if disk.ProcessName != rec.ProcessName || disk.Command != rec.Command || !sameMap(disk.Params, rec.Params) || !sameMap(disk.Tags, rec.Tags) || !sameMap(disk.OutFiles, rec.OutFiles) {
+				if disk.ProcessName != rec.ProcessName || disk.Command != rec.Command || !sameMap(disk.Params, rec.Params) || (!sibling && !sameMap(disk.Tags, rec.Tags)) || !sameMap(disk.OutFiles, rec.OutFiles) {
 					add("audit-nested-differs", fmt.Sprintf("%s: the nested record differs from %s.audit.json (nested process %q command %q tags %v params %v out-files %v; on disk process %q command %q tags %v params %v out-files %v)", where, path, rec.ProcessName, rec.Command, rec.Tags, rec.Params, rec.OutFiles, disk.ProcessName, disk.Command, disk.Tags, disk.Params, disk.OutFiles))
 				}
 			}
@@ -185,7 +229,7 @@ func (r *runner) compareRecord(path string, rec *auditRec, where string, o *Obs,
 	}
 	for _, in := range wantUp {
 		if up, ok := rec.Upstream[in]; ok {
-			r.compareRecord(in, up, where+" <- "+in, o, memo, add)
+			r.compareRecordS(in, up, where+" <- "+in, o, memo, add, r.siblingOfTagger(t.Proc, in))
 		}
 	}
 }
